@@ -1,0 +1,13 @@
+//go:build verif
+
+package planner
+
+import "github.com/vektah/gqlparser/v2/ast"
+
+// VerifSanitize exposes sanitizeSelectionSet for the verification harness.
+func VerifSanitize(ctx *PlanningContext, selectionSet ast.SelectionSet) (ast.SelectionSet, ScrubFields) {
+	return sanitizeSelectionSet(ctx, selectionSet, nil)
+}
+
+// VerifGetVariablesList exposes getVariablesList.
+func VerifGetVariablesList(s ast.SelectionSet) []string { return getVariablesList(s) }
